@@ -179,8 +179,14 @@ def stepSpec (sp : Strptime) (st : PState) (d : Bytes) : PState :=
       else if c = 109 then   -- m
         let r := int32 Gen.parse_m fun s v => { s with tm := { s.tm with mon := v - 1 } }
         { r with weekNum := -1 }
-      else if c = 100 ∨ c = 101 then   -- d e
+      else if c = 100 then   -- d
         let r := int32 Gen.parse_d fun s v => { s with tm := { s.tm with mday := v } }
+        { r with weekNum := -1 }
+      else if c = 101 then   -- e: one padding space is accepted and counts toward the width
+        let (d1, w) := if peek d = 32 ∧ d ≠ [] then (d.drop 1, Gen.parse_e.1 - 1) else (d, Gen.parse_e.1)
+        let r : PState := match parseInt32 d1 w Gen.parse_e.2.1 Gen.parse_e.2.2 with
+          | some (d', v) => { st with data := some d', fmt := f2, ghost := st.ghost ++ [(c, v)], tm := { st.tm with mday := v } }
+          | none => { st with data := none, fmt := f2 }
         { r with weekNum := -1 }
       else if c = 85 then    -- U
         let r := int32 Gen.parse_U fun s v => { s with weekNum := v }
